@@ -2,6 +2,7 @@ import PhyVerif.Model.C14
 import PhyVerif.Spec.C14
 import PhyVerif.Lemmas.C14
 import PhyVerif.Lemmas.C14b
+import PhyVerif.Lemmas.C14c
 /-!
 # C14 — exported ALF values equal the physical quantities they name
 Only property theorems + non-vacuity examples; proofs in `Lemmas/C14.lean`.
@@ -19,11 +20,29 @@ theorem rawInd_inverts_merge (maps : List (List Nat)) (h : ∀ m ∈ maps, m ≠
     exportRawInd (mergeChannelMaps maps) (channelProbes maps) = (maps.flatten).map Int.ofNat :=
   Lemmas.rawInd_inverts_merge maps h
 
-/-- Listed channels: nearest channels on the same probe as the peak channel, peak first. -/
+/-- Listed channels: nearest channels on the same probe as the peak channel, peak first.  WHICH channel `peak` is:
+`listed_channels_of_waveform` below. -/
 theorem nearest_ok (pos : List (Rat × Rat)) (probes : List Nat) (peak ncw : Nat)
     (hp : peak < pos.length) :
     nearestOK pos probes peak ncw (nearestSameProbe pos probes peak ncw) = true :=
   Lemmas.nearest_ok pos probes peak ncw hp
+
+/-- … where "the peak channel" of template / cluster `t` is THE peak channel (first channel of largest peak-to-peak,
+C09 `IsPeakChannel`) of the STORED waveform `wfs[t]` — `model.templates_channels` / `model.clusters_channels`
+(`_channels`, model.py:1289-1299, on `sparse_templates.data` / `sparse_clusters.data`, i.e. the WHITENED template), the
+source the property's anchors name.  The statement does not say "of the exported waveform", and under a whitening
+matrix that is far from a multiple of the identity the two differ (`wmi = diag(1, 8)`, stored template
+`[[2, 1], [-2, -1], [0, 0]]`: listed channels `[0, 1]`, depth of channel 0, while the exported unwhitened waveform
+`[[2, 8], [-2, -8], [0, 0]]` and `templates.amps` peak on channel 1).  Reading adopted here: the model's own peak
+channel, as for C09; `clusters.channels`, `clusters.depths` and `clusters.peakToTrough` use the same channel. -/
+theorem listed_channels_of_waveform (wfs : List Mat) (pos : List (Rat × Rat)) (probes : List Nat)
+    (ncw t ns nc : Nat) (ht : t < wfs.length) (hrect : Rect (wfs.getD t []) ns nc) (hns : 0 < ns) (hnc : 0 < nc)
+    (hpos : pos.length = nc) :
+    IsPeakChannel (wfs.getD t []) nc ((peakChannels wfs).getD t 0) ∧
+    nearestOK pos probes ((peakChannels wfs).getD t 0) ncw
+      (nearestSameProbe pos probes ((peakChannels wfs).getD t 0) ncw) = true :=
+  ⟨(C09.Lemmas.peakChannels_spec wfs t ns nc ht hrect hns hnc).1,
+   Lemmas.nearest_ok pos probes _ ncw (hpos ▸ (C09.Lemmas.peakChannels_spec wfs t ns nc ht hrect hns hnc).1.1)⟩
 
 /-- Exported waveforms are the (unwhitened, amplitude-rescaled) waveforms on the listed channels. -/
 theorem waveforms_eq (wfs : List Mat) (inds : List (List Nat))
@@ -33,12 +52,28 @@ theorem waveforms_eq (wfs : List Mat) (inds : List (List Nat))
       ((wfs.getD t []).getD s []).getD ((inds.getD t []).getD j 0) 0 :=
   Lemmas.waveforms_eq wfs inds t s j hj
 
-/-- Cluster depths are the depth of the cluster's peak channel, NaN for ids without spikes; without
-features a spike's depth is its cluster's depth. -/
-theorem cluster_depth_eq (ys : List Rat) (peaks nanIdx : List Nat) (c : Nat) (hc : c < peaks.length) :
-    (clusterDepths ys peaks nanIdx).getD c none =
-      if nanIdx.contains c then none else some (ys.getD (peaks.getD c 0) 0) :=
-  Lemmas.cluster_depth_eq ys peaks nanIdx c hc
+/-- WHICH ids are blanked in `clusters.depths`: exactly the ids below the number of clusters that NO SPIKE is assigned
+to — computed from the spike assignment, not a list handed in. -/
+theorem spikeless_ids_spec (n : Nat) (sc : List Nat) (c : Nat) :
+    c ∈ spikelessIds n sc ↔ c < n ∧ c ∉ sc :=
+  Lemmas.mem_spikelessIds n sc c
+
+/-- … and for a curated dataset (`n_clusters` = highest id + 1, C13 `cluster_count_rule`) that list IS the model's
+`nan_idx` (C08 `nanIdx` of the merge map, characterised by C08 `nanIdx_spec`): the composition with C08.  For an
+un-curated dataset `model.nan_idx` is `[]` (model.py:425) whatever the templates without spikes — `make_depths` must
+not (and, repaired, does not) take its list from there. -/
+theorem blanked_ids_eq_nanIdx (st sc : List Nat) (hlen : st.length = sc.length) :
+    spikelessIds (sc.foldl max 0 + 1) sc = C08.nanIdx (C08.mergeMap st sc) :=
+  Lemmas.spikelessIds_eq_nanIdx st sc hlen
+
+/-- Cluster depths are the depth of the cluster's peak channel, NaN EXACTLY for the ids without spikes (curated or
+not); one entry per cluster.  `peaks` is the exported `clusters.channels` table (`make_depths` reads it back), `sc`
+the spike assignment. -/
+theorem cluster_depth_eq (ys : List Rat) (peaks sc : List Nat) (c : Nat) (hc : c < peaks.length) :
+    (exportClusterDepths ys peaks sc).getD c none =
+      (if c ∈ sc then some (ys.getD (peaks.getD c 0) 0) else none) ∧
+    (exportClusterDepths ys peaks sc).length = peaks.length :=
+  ⟨Lemmas.export_cluster_depth_eq ys peaks sc c hc, Lemmas.exportClusterDepths_length ys peaks sc⟩
 
 /-! ## Second part: unit factor, exported waveforms of the RETURNED templates, spike depths without features,
 durations in milliseconds (model additions at the end of `Model/C14.lean`, proofs in `Lemmas/C14b.lean`; the
@@ -107,29 +142,49 @@ theorem exported_waveform_nan (d : Data) (f : Rat) (inds : List (List Nat)) (t :
     (exportWaveformsOpt (rescaledUnit d f) inds).getD t none = none :=
   Lemmas.exported_waveform_nan d f inds t ht hv
 
-/-- Without features a spike's depth is its cluster's depth: the depth (y) of the cluster's peak channel (NaN if the
-cluster id were listed in `nan_idx`), for every spike whose cluster id is below the number of clusters (the real code
-raises `IndexError` otherwise). -/
-theorem spike_depth_eq (ys : List Rat) (peaks nanIdx sc : List Nat) (i : Nat) (hi : i < sc.length)
+/-- "or the cluster depth when no features exist": whenever `get_depths()` gives nothing — no feature file, or
+features stored for a SUBSET of the spikes (`pc_feature_spike_ids.npy`, model.py:1106) — a spike's depth is the depth
+(y) of its cluster's peak channel, and it is NEVER NaN (the spike's own cluster has a spike), for every spike whose
+cluster id is below the number of clusters (the real code raises `IndexError` otherwise); one entry per spike. -/
+theorem spike_depth_eq (fe : Option Feats) (ys : List Rat) (peaks st sc : List Nat)
+    (hno : ∀ f, fe = some f → f.feat0.length ≠ st.length) (i : Nat) (hi : i < sc.length)
     (hc : sc.getD i 0 < peaks.length) :
-    (spikeDepthsFromClusters (clusterDepths ys peaks nanIdx) sc).getD i none =
-      if nanIdx.contains (sc.getD i 0) then none else some (ys.getD (peaks.getD (sc.getD i 0) 0) 0) :=
-  Lemmas.spike_depth_eq ys peaks nanIdx sc i hi hc
+    (exportSpikeDepths fe ys peaks st sc).getD i none = some (ys.getD (peaks.getD (sc.getD i 0) 0) 0) ∧
+    (exportSpikeDepths fe ys peaks st sc).length = sc.length :=
+  ⟨Lemmas.export_spike_depth_eq fe ys peaks st sc ((Lemmas.getDepths_none_iff fe ys st).2 hno) i hi hc,
+   Lemmas.exportSpikeDepths_length_fallback fe ys peaks st sc ((Lemmas.getDepths_none_iff fe ys st).2 hno)⟩
+
+/-- "spike depths are feature-weighted channel depths": with a feature row for every spike, the exported depth of
+spike `i` is `Σ y_c · w_c / Σ w_c` over the channels `c` listed for the spike's template, `w = max(feature, 0)²` on the
+first component (NaN when no weight is positive) — the composition of the export with C09 `depths_eq`. -/
+theorem spike_depth_features_eq (f : Feats) (ys : List Rat) (peaks st sc : List Nat)
+    (hl : f.feat0.length = st.length) (i : Nat) (hi : i < st.length) :
+    (exportSpikeDepths (some f) ys peaks st sc).getD i none =
+      (let w := (f.feat0.getD i []).map fun x => (max x 0) * (max x 0)
+       let y := (f.cols.getD (st.getD i 0) []).map fun c => ys.getD c 0
+       if w.sum = 0 then none else some (dot y w / w.sum)) ∧
+    (exportSpikeDepths (some f) ys peaks st sc).length = st.length :=
+  Lemmas.spike_depth_features_eq f ys peaks st sc hl i hi
 
 -- `hr`: the domain (a sampling rate); the equation does not need it
 set_option linter.unusedVariables false in
-/-- `clusters.peakToTrough[c]` in MILLISECONDS: NaN for ids without spikes, else `(iM − im) · 1000 / rate` for THE
-peak channel `p` of the cluster waveform and THE first arg-max `iM` / arg-min `im` along time on it (direct formula
-of C09 `duration_ms_spec`; objects exist by C09 `duration_objects_exist`); one entry per cluster. -/
-theorem peakToTrough_eq (wfs : List Mat) (rate : Rat) (hr : 0 < rate) (nanIdx : List Nat) (ns nc : Nat)
+/-- `clusters.peakToTrough[c]` in MILLISECONDS: `(iM − im) · 1000 / rate` for THE peak channel `p` of the cluster
+waveform and THE first arg-max `iM` / arg-min `im` along time on it (direct formula of C09 `duration_ms_spec`; objects
+exist by C09 `duration_objects_exist`); one entry per cluster.  NaN exactly for the ids without spikes of a CURATED
+dataset (`model.nan_idx`, the C08 model, composed through C08 `nanIdx_spec`; their cluster waveform is all zero).  When
+nothing was curated every template — also one without spikes — has the duration of its own waveform: the statement
+attaches its NaN clause to depths, and upstream `test_alf.py::test_creator` pins a number there.  `hn`: a curated
+dataset has one cluster per id up to the highest (C13 `cluster_count_rule`). -/
+theorem peakToTrough_eq (wfs : List Mat) (rate : Rat) (hr : 0 < rate) (st sc : List Nat)
+    (hlen : st.length = sc.length) (hn : sc ≠ st → wfs.length = sc.foldl max 0 + 1) (ns nc : Nat)
     (hns : 0 < ns) (hnc : 0 < nc) (hrect : ∀ W ∈ wfs, Rect W ns nc) (c : Nat) (hc : c < wfs.length)
     (p iM im : Nat) (hp : IsPeakChannel (wfs.getD c []) nc p) (hM : IsFirstMax (chan (wfs.getD c []) p) iM)
     (hm : IsFirstMin (chan (wfs.getD c []) p) im) :
-    (exportPeakToTrough wfs rate nanIdx).getD c none =
-      (if nanIdx.contains c then none else some ((((iM : Int) - (im : Int) : Int) : Rat) * 1000 / rate)) ∧
-    (exportPeakToTrough wfs rate nanIdx).length = wfs.length :=
-  ⟨Lemmas.peakToTrough_eq wfs rate nanIdx ns nc hns hnc hrect c hc p iM im hp hM hm,
-   Lemmas.exportPeakToTrough_length wfs rate nanIdx⟩
+    (exportDurations wfs rate st sc).getD c none =
+      (if sc ≠ st ∧ c ∉ sc then none else some ((((iM : Int) - (im : Int) : Int) : Rat) * 1000 / rate)) ∧
+    (exportDurations wfs rate st sc).length = wfs.length :=
+  ⟨Lemmas.durations_eq wfs rate st sc hlen hn ns nc hns hnc hrect c hc p iM im hp hM hm,
+   Lemmas.exportDurations_length wfs rate st sc⟩
 
 /-- "Peak channel FIRST", literally: when no other channel sits at the peak channel's position (the loader replaces
 non-distinct positions, model.py:390-393, so every exported dataset satisfies this) and at least one channel is
@@ -153,6 +208,12 @@ theorem nearest_peak_first (pos : List (Rat × Rat)) (probes : List Nat) (peak n
 example : (nearestSameProbe [(0, 0), (0, 20), (10, 10), (0, 40), (5, 5)] [0, 0, 1, 0, 1] 1 4).head? = some 1 :=
   nearest_peak_first _ _ 1 4 (by decide) (by decide) (by decide +kernel)
 example : nearestOK [(0, 0), (0, 0)] [0, 0] 1 2 [0, 1] = true := by decide +kernel   -- co-located: not determined
+-- the audit's whitened template: peak channel 0 on the stored waveform, listed channels [0, 1]
+example : nearestSameProbe [(0, 0), (0, 20)] [0, 0] ((peakChannels [[[2, 1], [-2, -1], [0, 0]]]).getD 0 0) 2 = [0, 1] := by
+  decide +kernel
+example : IsPeakChannel ([[[2, 1], [-2, -1], [0, 0]]].getD 0 []) 2 ((peakChannels [[[2, 1], [-2, -1], [0, 0]]]).getD 0 0) :=
+  (listed_channels_of_waveform [[[2, 1], [-2, -1], [0, 0]]] [(0, 0), (0, 20)] [0, 0] 2 0 3 2 (by decide)
+    ⟨by decide, by decide⟩ (by decide) (by decide) (by decide)).1
 section Instances
 def exT : Data := ⟨[[[1, 0], [-1, 2]], [[0, 3], [0, -3]], [[5, 5], [1, 1]]], [[2, 0], [0, 1/2]], [1, 2, 1/2], [0, 0, 1]⟩
 def exC : Data := ⟨[[[1, 0], [-1, 2]], [[0, 3], [0, -3]]], [[2, 0], [0, 1/2]], [1, 2, 1/2], [1, 0, 1]⟩
@@ -181,13 +242,40 @@ example : ∃ W E, (rescaledUnit exT (5/2)).getD 1 none = some W ∧ IsPeakAmp W
     (by decide) (15/4) (by decide +kernel) (by decide +kernel) 2 2 (by decide) (by decide) (by decide +kernel)
 example : (exportWaveformsOpt (rescaledUnit exT (5/2)) [[0, 1], [1, 0], [0, 1]]).getD 2 none = none :=
   exported_waveform_nan exT (5/2) _ 2 (by decide) (by decide +kernel)
-example : spikeDepthsFromClusters (clusterDepths [10, 20, 40] [2, 0, 1] [1]) [0, 2, 2, 0] =
+-- an UN-CURATED assignment whose template 1 has no spike: id 1 is blanked (before the repair it was not)
+example : spikelessIds 3 [0, 2, 2, 0] = [1] := by decide
+example : exportClusterDepths [10, 20, 40] [2, 0, 1] [0, 2, 2, 0] = [some 40, none, some 20] := by decide +kernel
+example : (exportClusterDepths [10, 20, 40] [2, 0, 1] [0, 2, 2, 0]).getD 1 none = none := by
+  rw [(cluster_depth_eq [10, 20, 40] [2, 0, 1] [0, 2, 2, 0] 1 (by decide)).1]; decide
+example : spikelessIds ([4, 0, 4, 2, 2, 4].foldl max 0 + 1) [4, 0, 4, 2, 2, 4] = [1, 3] := by
+  rw [blanked_ids_eq_nanIdx [0, 0, 1, 2, 2, 1] [4, 0, 4, 2, 2, 4] (by decide)]; decide
+-- no features / features for 2 of 4 spikes: the cluster depth, never NaN
+example : exportSpikeDepths none [10, 20, 40] [2, 0, 1] [0, 2, 2, 0] [0, 2, 2, 0] =
     [some 40, some 20, some 20, some 40] := by decide +kernel
-example : (spikeDepthsFromClusters (clusterDepths [10, 20, 40] [2, 0, 1] [1]) [0, 2, 2, 0]).getD 1 none = some 20 := by
-  rw [spike_depth_eq [10, 20, 40] [2, 0, 1] [1] [0, 2, 2, 0] 1 (by decide) (by decide)]; decide +kernel
-example : exportPeakToTrough [[[1, 0, 4], [-1, 2, 0], [3, 1, 2]], [[0, 0, 1], [0, 5, 0], [0, -1, 0]],
-    [[0, 0, 0], [0, 0, 0], [0, 0, 0]]] 30000 [2] = [some (1/30), some (-1/30), none] := by decide +kernel
-example : (exportPeakToTrough [[[1, 0, 4], [-1, 2, 0], [3, 1, 2]]] 30000 [5]).getD 0 none =
+example : exportSpikeDepths (some ⟨[[1, 2], [0, 1]], [[0, 1], [0, 1], [0, 1]]⟩) [10, 20, 40] [2, 0, 1] [0, 2, 2, 0]
+    [0, 2, 2, 0] = [some 40, some 20, some 20, some 40] := by decide +kernel
+example : (exportSpikeDepths (some ⟨[[1, 2], [0, 1]], [[0, 1], [0, 1], [0, 1]]⟩) [10, 20, 40] [2, 0, 1] [0, 2, 2, 0]
+    [0, 2, 2, 0]).getD 1 none = some 20 := by
+  rw [(spike_depth_eq (some ⟨[[1, 2], [0, 1]], [[0, 1], [0, 1], [0, 1]]⟩) [10, 20, 40] [2, 0, 1] [0, 2, 2, 0]
+    [0, 2, 2, 0] (by intro f hf; cases hf; decide) 1 (by decide) (by decide)).1]; decide +kernel
+-- features for every spike: the feature-weighted depths (spike 1: weights 0 and 1 -> depth of channel 1; spike 2: no
+-- positive weight -> NaN)
+example : exportSpikeDepths (some ⟨[[1, 1], [-1, 1], [-1, 0]], [[0, 1], [0, 1], [1, 2]]⟩) [10, 20, 40] [2, 0, 1] [0, 2, 1]
+    [0, 2, 1] = [some 15, some 40, none] := by decide +kernel
+example : (exportSpikeDepths (some ⟨[[1, 1], [-1, 1], [-1, 0]], [[0, 1], [0, 1], [1, 2]]⟩) [10, 20, 40] [2, 0, 1] [0, 2, 1]
+    [0, 2, 1]).length = 3 :=
+  (spike_depth_features_eq ⟨[[1, 1], [-1, 1], [-1, 0]], [[0, 1], [0, 1], [1, 2]]⟩ [10, 20, 40] [2, 0, 1] [0, 2, 1]
+    [0, 2, 1] (by decide) 0 (by decide)).2
+-- curated (ids 0..2, id 1 without spikes): NaN; nothing curated (template 2 without spikes): the template's own duration
+example : exportDurations [[[1, 0, 4], [-1, 2, 0], [3, 1, 2]], [[0, 0, 0], [0, 0, 0], [0, 0, 0]],
+    [[0, 0, 1], [0, 5, 0], [0, -1, 0]]] 30000 [0, 0, 1] [0, 2, 2] = [some (1/30), none, some (-1/30)] := by
+  have h : modelNanIdx [0, 0, 1] [0, 2, 2] = [1] := by decide
+  unfold exportDurations; rw [h]; decide +kernel
+example : exportDurations [[[1, 0, 4], [-1, 2, 0], [3, 1, 2]], [[0, 0, 1], [0, 5, 0], [0, -1, 0]],
+    [[0, 1, 0], [0, 0, 0], [0, -1, 0]]] 30000 [0, 1, 1] [0, 1, 1] = [some (1/30), some (-1/30), some (-1/15)] := by
+  have h : modelNanIdx [0, 1, 1] [0, 1, 1] = [] := by decide
+  unfold exportDurations; rw [h]; decide +kernel
+example : (exportDurations [[[1, 0, 4], [-1, 2, 0], [3, 1, 2]]] 30000 [0, 0] [0, 0]).getD 0 none =
     some (((((2 : Nat) : Int) - ((1 : Nat) : Int) : Int) : Rat) * 1000 / 30000) := by
   have hp : IsPeakChannel ([[[1, 0, 4], [-1, 2, 0], [3, 1, 2]]].getD 0 []) 3 0 := by
     have h := (C09.Lemmas.peakChannels_spec [[[1, 0, 4], [-1, 2, 0], [3, 1, 2]]] 0 3 3 (by decide) ⟨by decide, by decide⟩
@@ -195,10 +283,15 @@ example : (exportPeakToTrough [[[1, 0, 4], [-1, 2, 0], [3, 1, 2]]] 30000 [5]).ge
     rwa [show (peakChannels [[[1, 0, 4], [-1, 2, 0], [3, 1, 2]]]).getD 0 0 = 0 by decide +kernel] at h
   have hM : IsFirstMax (chan ([[[1, 0, 4], [-1, 2, 0], [3, 1, 2]]].getD 0 []) 0) 2 := by unfold IsFirstMax; decide +kernel
   have hm : IsFirstMin (chan ([[[1, 0, 4], [-1, 2, 0], [3, 1, 2]]].getD 0 []) 0) 1 := by unfold IsFirstMin; decide +kernel
-  rw [(peakToTrough_eq _ 30000 (by decide +kernel) [5] 3 3 (by decide) (by decide) (by decide) 0 (by decide) 0 2 1 hp hM hm).1]
+  rw [(peakToTrough_eq _ 30000 (by decide +kernel) [0, 0] [0, 0] (by decide) (by decide) 3 3 (by decide) (by decide)
+    (by decide) 0 (by decide) 0 2 1 hp hM hm).1]
   decide +kernel
 end Instances
 
+-- a SINGLE dataset whose probe labels are not in channel-map order: negative raw indices (open finding, see
+-- known_findings.json); in channel-map order: per-probe indices, none negative
+example : probesOrdered [0, 1, 2, 3] [1, 1, 0, 0] = false ∧ exportRawInd [0, 1, 2, 3] [1, 1, 0, 0] = [-4, -3, 2, 3] := by decide
+example : probesOrdered [3, 0, 5, 4] [0, 0, 1, 1] = true ∧ exportRawInd [3, 0, 5, 4] [0, 0, 1, 1] = [3, 0, 1, 0] := by decide
 example : exportRawInd (mergeChannelMaps [[2, 0, 3, 1], [1, 0], [0, 2, 1]]) (channelProbes [[2, 0, 3, 1], [1, 0], [0, 2, 1]])
     = [2, 0, 3, 1, 1, 0, 0, 2, 1] := by decide
 example : nearestSameProbe [(0, 0), (0, 20), (10, 10), (0, 40), (5, 5)] [0, 0, 1, 0, 1] 1 4 = [1, 0, 3, 2] := by
